@@ -215,14 +215,17 @@ V("O11.1", ["C11", "C02", "C05"], "c11_control", expect_verified=10,
 # ---------------------------------------------------------------------------------------------
 # C09 names
 # ---------------------------------------------------------------------------------------------
-V("O09.1w", ["C09"], "c09_names", expect_verified=7,
-  functions=["SymbolTable::new", "SymbolTable::new_context", "SymbolTable::leave_context", "SymbolTable::current_context", "SymbolTable::in_function", "SymbolTable::resolve", "SymbolTable::define"],
-  desc="context discipline, verbatim wrappers: declarations go to the innermost context; lookup tries the current context, then - only inside a function - the GLOBAL context, never an enclosing function's context; a function's context is pushed / popped as a whole")
+V("O09.1w", ["C09", "C17"], "c09_names", expect_verified=20,
+  functions=["Context::new", "Context::max_size", "SymbolTable::new", "SymbolTable::new_context", "SymbolTable::leave_context", "SymbolTable::current_context", "SymbolTable::in_function", "SymbolTable::resolve", "SymbolTable::define", "SymbolTable::enter_scope", "SymbolTable::leave_scope", "SymbolTable::reset_to_global",
+             "lemmas over the contracts of Context::define / resolve: lemma_inner_scope, lemma_declare_takes_over, lemma_declare_frames_others, lemma_block_roundtrip, lemma_table_block_roundtrip, lemma_slot_in_range"],
+  desc="real struct definitions (R9) and verbatim bodies: declarations go to the innermost scope of the innermost context; a block opens / closes exactly one scope; lookup tries the current context, then - only inside a function - the GLOBAL context, never an enclosing function's; a function's context is pushed / popped as a whole; reset keeps only the outermost global scope. Lemmas (all sizes) over the view contracts of Context::define / resolve: shadowing, latest declaration wins, other names unaffected, block end forgets, slots in range")
 V("O09.3", ["C09", "C10", "C05"], "c09_slots", expect_verified=3,
   functions=["Compiler::compile_expression arm Expr::Identifier", "Compiler::compile_statement arm Stmt::Let", "Compiler::compile_expression arm Expr::Assign"],
   desc="unresolved name -> ReferenceError with nothing emitted; load/store opcode family chosen from the symbol's scope; operand == the symbol's slot; assignment stores then reloads the same slot; element assignment compiles target, index, value in order")
 K("O09.len", ["C09", "C05"], "symbols", "c09_total_len", level="bounded", bound="three scopes of 0..=2 names each", functions=["Context::total_len"],
   desc="total_len is the sum of the scope lengths (real iterator fold): the contract under which Context::define is verified")
+K("O09.res", ["C09"], "symbols", "c09_resolve_two_scopes", level="bounded", bound="two open scopes of 0..=2 names each over {a, b}", functions=["Context::resolve", "Context::total_len"],
+  desc="innermost scope first, last declaration of the name within a scope, slot == number of names declared before it in the context; absent name -> None")
 K("O05.sym", ["C05", "C09"], "symbols", "c05_define_total", functions=["Context::define"],
   desc="declaring a name is total for EVERY number of names already in the context (symbolic count in the enclosing scopes): slot == count as u16, or an error value and an unchanged context - never a panic")
 K("O09.2", ["C09"], "lib", "c09_eval_order", functions=["eval"],
@@ -329,7 +332,7 @@ PROPERTIES = {
         "claim": "PARTIAL, per function: every function / match arm under contract in this framework (operators, conversions, index functions, all 45 machine arms, call/return, the compiler arms and helpers listed in the evidence) is proved free of panics, arithmetic overflow, out-of-bounds access and non-termination under its stated precondition - Kani checks every unwrap / index / overflow / unimplemented! / debug_assert on the real code, Verus every overflow / index / unwrap precondition on the extracted text with panic! sites turned into `requires false` calls. The defects this exposed (13 panics / hangs on ordinary inputs) are repaired (known-findings.txt).",
         "note": "NOT decided: totality of VM::run and compile_ast as whole loops (composition of the arm contracts), of the tokenizer and of the parser functions not under contract (if / call / array / block loops), the REPL's unwrap()s in src/bin. A panic in code outside the listed functions is not detected.",
         "design_ref": "DESIGN.md 3.10",
-        "undecided": ["Tokenizer, parser functions not under contract, Context (symbols.rs), std formatting/parsing paths of the builtins", "whole-loop totality of VM::run / compile_ast (composition)", "src/bin/nederlang.rs"],
+        "undecided": ["Tokenizer, parser functions not under contract, Context::resolve beyond its bound, std formatting/parsing paths of the builtins", "whole-loop totality of VM::run / compile_ast (composition)", "src/bin/nederlang.rs"],
         "assumptions": ["arm preconditions (compile-side half of C02)"],
     },
     "C07": {
@@ -342,11 +345,11 @@ PROPERTIES = {
     },
     "C09": {
         "level": "proof",
-        "claim": "PARTIAL. Proved (Verus, verbatim): the symbol table's context discipline - a function body sees its own context and the global one, never an enclosing function's; declarations go to the innermost context - and the compiler arms that turn a resolved name into a load/store of exactly its slot in its scope's opcode family, with an unresolved name rejected before anything is emitted; proved (Kani): eval never enters the machine when compilation failed. NOT decided: the per-context scope stack itself (Context::define / resolve / enter_scope / leave_scope: innermost-scope-first lookup, latest declaration wins, names forgotten at block end, slot numbering).",
-        "note": "The undecided part is the core data structure (Vec<Vec<String>> with iterator adapters): no Verus model, and CBMC does not finish even a concrete 4-step scenario (> 500 s, measured). A change confined to Context::define/resolve is therefore NOT detected by this check. Trusted: Verus/Z3, Kani/CBMC, rules R1,R4.",
+        "claim": "PARTIAL. Proved (Verus): the symbol table of src/symbols.rs on its REAL struct definitions - new / new_context / leave_context / current_context / in_function / resolve / define / enter_scope / leave_scope / reset_to_global and Context::new verbatim: a block opens exactly one empty scope and its end closes exactly that scope, a function body sees its own context and the global one, never an enclosing function's, declarations go to the innermost scope of the innermost context. Over the contracts of the two per-context functions (Context::define / resolve, stated on the VIEW stack-of-scopes-of-names of the real struct) the scoping statements of the property are lemmas for contexts of EVERY size: inner declarations shadow without disturbing the outer slot, the latest declaration of a name in a block takes over, other names are unaffected, a block's names cease to exist at its end, slots are in range. Context::define is proved total and appending for EVERY symbol count (Kani, modular over total_len). The compiler arms turn a resolved name into a load/store of exactly its slot in its scope's opcode family, an unresolved name is rejected before anything is emitted, and eval never enters the machine when compilation failed (Kani). BOUNDED (not proved): that the real Context::resolve / total_len compute the view functions (two scopes of 0..=2 names; three scopes).",
+        "note": "Context::define / resolve use iterator closures (fold, rev, rposition): no Verus model, so their view contracts are ASSUMED in the Verus unit and checked on the real code by Kani - define for all counts, resolve / total_len within the stated bound. Sequences of define calls do not finish in CBMC (measured: out of memory / > 600 s for 2+2 declarations), hence the composition is done by the Verus lemmas over views. The compiler units see the table through uninterpreted measures (scope depth, context count, enclosing depths) whose contracts restate those of this unit (link by reading). Trusted: Verus/Z3, Kani/CBMC, rules R4, R9.",
         "design_ref": "DESIGN.md 3.13",
-        "undecided": ["Context::define / Context::resolve / total_len / enter_scope / leave_scope (per-context scope stack)", "compile-time slot == run-time slot for every program (composition)"],
-        "assumptions": ["ctx_resolve / ctx_define_symbol name what Context::resolve / define answer (uninterpreted)"],
+        "undecided": ["Context::resolve beyond two scopes of two names (bounded)", "compile-time slot == run-time slot for every program (composition with C02/C12)"],
+        "assumptions": ["Context::resolve answers slot_of(view) for contexts larger than the Kani bound", "Context::total_len == flat_len(view) beyond the Kani bound", "the compiler units' symbol-table measures restate the contracts of unit c09_names (by reading)"],
     },
     "C11": {
         "level": "proof",
